@@ -323,7 +323,7 @@ pub fn run(tier: Tier) -> i32 {
             }
         }
         let mut counts = Vec::new();
-        for threads in [nthreads(), 3] {
+        for threads in [nthreads(), (nthreads() / 2).max(2)] {
             let d = depth;
             let model = WModel { base: base.clone(), ns, nv, acts: acts.clone(), depth: d, utt: utt.clone(), transitions: Default::default(), synths: Default::default(), rejected: Default::default(), checked_last: Default::default(), monitor: monitor.clone() };
             let checker = model.checker().threads(threads).target_max_depth(d as usize + 2).spawn_bfs().join();
